@@ -33,6 +33,17 @@ def assigned_names(stmts) -> set[str]:
     return names
 
 
+def mutated_receivers(stmts) -> set[str]:
+    """Local names that are receivers of an in-place mutating method call (x.append(...), x.extend(...), ...)."""
+    names = set()
+    for s in stmts:
+        for n in ast.walk(s):
+            if (isinstance(n, ast.Call) and isinstance(n.func, ast.Attribute) and isinstance(n.func.value, ast.Name)
+                    and n.func.attr in ("append", "extend", "pop", "insert", "remove", "clear", "add", "discard", "update", "setdefault", "sort", "reverse")):
+                names.add(n.func.value.id)
+    return names
+
+
 class Stmts:
     # bookkeeping -----------------------------------------------------------------
     def local_calls(self):
@@ -396,6 +407,8 @@ class Stmts:
         body_names = assigned_names(s.body) | (assigned_names([s.target]) if kind == "for" else set())
         if kind == "while":
             body_names |= assigned_names([ast.Expr(s.test)])
+        # lists held BY VALUE in a local name (list displays / comprehension results) are rebound by x.append(...): they change in the loop too
+        body_names |= {nm for nm in mutated_receivers(s.body) if isinstance(st.env.get(nm), (VTuple, VSeq))}
         h = st.fork()
         for name in body_names:
             if name in h.env:
@@ -468,6 +481,11 @@ class Stmts:
             raise Unsupported(f"cannot havoc local `{name}` initialised to None (give it a type in the contract)")
         if isinstance(v, VSeq):
             return VSeq(st.fresh("hv." + name, v.arr.sort()), st.fresh_int("hv.n." + name), v.ek, v.ecls)
+        if isinstance(v, VTuple) and v.is_list:
+            # a local list (held by value) that the loop appends to: arbitrary contents, non-negative length
+            n = st.fresh_int("hv.n." + name)
+            st.assume(n >= 0)
+            return VSeq(st.fresh("hv." + name, z3.ArraySort(z3.IntSort(), z3.IntSort())), n, "ref", None)
         raise Unsupported(f"cannot havoc local `{name}` of kind {type(v).__name__}")
 
     def write_set(self, stmts):
@@ -526,6 +544,7 @@ class Stmts:
             ghost.update(gs)
         elif isinstance(h, Builtin):
             heap.update(getattr(h.fn, "modifies", []))
+            ghost.update(getattr(h.fn, "ghost_modifies", []))
 
     # try/except: only `try: BODY except E [as x]: HANDLER` --------------------------------
     def s_Try(self, s, st):
@@ -552,6 +571,9 @@ class Stmts:
                 names = _handler_names(h)
                 if names is None or o.val in names or _is_subclass(o.val, names):
                     self.handling.append(o.val)
+                    if h.name:
+                        # `except E as e`: the exception object is an opaque fresh reference
+                        o.st.env[h.name] = VRef(o.st.fresh_int("exc"), "Exception")
                     try:
                         outs += self.exec_block(h.body, o.st)
                     finally:
